@@ -1,4 +1,5 @@
 \* quick: <= 3 frames over the core alphabet, 2 subscriptions, every completion order / notification placement
+\* measured: 27 434 distinct / 53 034 generated states, depth 26
 CONSTANTS
   FrameAlphabet <- FramesCore
   MaxFrames = 3
